@@ -29,7 +29,10 @@ int main (void) {
            (int)sexp_type_weak_len_extra(t), fin);
   }
   printf("E %d %d %d\n", (int)SEXP_EPHEMERON, (int)SEXP_IPORT, (int)SEXP_FILENO);
-  printf("C %d %d %d\n", (int)SEXP_USE_WEAK_REFERENCES, (int)SEXP_USE_FINALIZERS, (int)SEXP_USE_CONSERVATIVE_GC);
+#ifndef SEXP_USE_UNIFY_FILENOS_BY_NUMBER
+#define SEXP_USE_UNIFY_FILENOS_BY_NUMBER 0
+#endif
+  printf("C %d %d %d %d\n", (int)SEXP_USE_WEAK_REFERENCES, (int)SEXP_USE_FINALIZERS, (int)SEXP_USE_CONSERVATIVE_GC, (int)SEXP_USE_UNIFY_FILENOS_BY_NUMBER);
   return 0;
 }
 """
@@ -86,8 +89,8 @@ def probe(d):
             conf = [int(x) for x in f[1:]]
     if not types or consts is None or conf is None:
         raise RuntimeError("gen/c16_layout: probe output not understood")
-    if conf != [1, 1, 0]:
-        raise RuntimeError("gen/c16_layout: configuration outside the model (weak refs, finalizers, conservative gc) = %s" % conf)
+    if conf != [1, 1, 0, 0]:
+        raise RuntimeError("gen/c16_layout: configuration outside the model (weak refs, finalizers, conservative gc, unify filenos by number) = %s" % conf)
     sq = squeeze(open(os.path.join(d, "gc.c")).read())
     body = function_body(sq, "sexpsexp_gc(sexpctx,size_t*sum_freed)")
     pos = []
